@@ -677,10 +677,16 @@ class Representation:
         if dtype != np.dtype('O'):
             base_ring = None
 
-        new_rep = self._compose(
-            lambda M: M.astype(dtype),
-            dtype=dtype
-        )
+        def cast(M):
+            # the inverse of an integer matrix is stored as a float
+            # array whose entries are integers only up to rounding
+            # error, and astype would truncate 0.999... to 0
+            if (np.issubdtype(np.dtype(dtype), np.integer)
+                and np.issubdtype(M.dtype, np.inexact)):
+                M = np.rint(M)
+            return M.astype(dtype)
+
+        new_rep = self._compose(cast, dtype=dtype)
         new_rep._base_ring = base_ring
 
         return new_rep
